@@ -66,8 +66,13 @@ def main():
     bad = 0
     for prop, patch in jobs:
         r = run_one(prop, patch, ns.tier, ns.seed)
+        meta_path = os.path.join(os.path.dirname(patch), "meta.json")
+        known = json.load(open(meta_path)).get("known_missed") if os.path.exists(meta_path) else None
+        if known and r["status"] == "MISSED":
+            r["status"] = "MISSED-known"  # documented in DESIGN.md section 10 / seeded/NOTES.md: a shape the generators do not produce
+            r["why"] = known
         print(json.dumps(r), flush=True)
-        if r["status"] != "killed":
+        if r["status"] not in ("killed", "MISSED-known"):
             bad += 1
     return 1 if bad else 0
 
